@@ -6,6 +6,7 @@ consistent; a type with a float inside must define all of them on ONE total key.
 import re
 from .prog import short
 from . import flow as F
+from . import pathrules as PR
 from . import rules_sites
 
 CMP_TRAITS = ("core::cmp::PartialEq", "core::cmp::Eq", "core::cmp::PartialOrd", "core::cmp::Ord", "core::hash::Hash")
@@ -123,9 +124,10 @@ def run(R):
         # float-bearing key type
         _check_float_type(R, P, a, ims, loc)
     # numeric comparison by value in the Compare arm
-    ev = R.need_fn("sqlgrep::execution::expression_execution::ExpressionExecutionEngine::evaluate")
+    from .rules_c03 import EVAL_KEEP
+    ev = PR.view(P, R.need_fn("sqlgrep::execution::expression_execution::ExpressionExecutionEngine::evaluate"), keep=EVAL_KEEP)
     cmp_calls = [c for c in ev.calls if c.func.get("trait") in ("core::cmp::PartialOrd", "core::cmp::Ord") and
-                 (c.targs[:1] == ["sqlgrep::model::Value"]) and c.func.get("trait_method") in ("lt", "le", "gt", "ge", "cmp", "partial_cmp")]
+                 (c.targs[:1] in (["sqlgrep::model::Value"], ["&sqlgrep::model::Value"])) and c.func.get("trait_method") in ("lt", "le", "gt", "ge", "cmp", "partial_cmp")]
     coercions = []
     for i, s in ev.stmts():
         if s["rv"]["k"] == "cast" and s["rv"]["ck"] == "IntToFloat" and s["rv"]["from"] == "i64":
@@ -255,7 +257,10 @@ def _check_float_type(R, P, a, ims, loc):
             R.violation("C16.float", "%s|%s|not-delegating" % (a, nm),
                         "%s::%s does not delegate to cmp (or uses IEEE operators): equality/order may disagree with Ord" % (a, nm), [f.loc()])
     # hash feeds the same key as cmp compares
-    kc, kh = local_keyfns(cmp_f), local_keyfns(h_f)
+    kc = local_keyfns(cmp_f)
+    # helpers of hash() other than the comparison key function are looked through (e.g. `canonical_bits()` = `canonical().to_bits()`)
+    h_f = PR.view(P, h_f, keep="|".join(re.escape(k) + "$" for k in kc) if kc else None)
+    kh = local_keyfns(h_f)
     raw_transmute = any(s["rv"]["k"] == "cast" and s["rv"]["ck"] == "Transmute" for _, s in h_f.stmts())
     if raw_transmute or kc != kh:
         R.violation("C16.float", "%s|hash|key-mismatch" % a,
